@@ -228,3 +228,20 @@ def lemmas_arith(ctx):
 UNITS["lemmas/arith"] = lemmas_arith
 for _c in CELLS:
     UNITS["dofs/" + _c] = dofs_unit(_c)
+
+
+def standin_dofs(ctx):
+    import time
+    from skv import core
+    t0 = time.time()
+    r = core.run_native("standin_mesh.py", dict(seed=ctx.seed, tier=ctx.tier, what="dofs"))
+    ctx.standin("DOFS clauses (gap-free, sharing, tables vs cell list, doflocs, matrix shape/locality) on the real Dofs/Basis over the mesh zoo x element list",
+                r["bound"] + "; elements: 1-12 per cell type incl. vector, composite, DG, H(div), H(curl), global", r["cases"], r["failures"],
+                samples=r["samples"], time_s=time.time() - t0)
+    r = core.run_native("standin_mesh.py", dict(seed=ctx.seed, tier=ctx.tier, what="large"))
+    ctx.standin("machine-integer probe (outside assumption A2): entity tables of meshes with more than 2**16 randomly numbered vertices",
+                r["bound"], r["cases"], r["failures"], samples=r["samples"], time_s=time.time() - t0)
+
+
+UNITS["standin/dofs"] = standin_dofs
+HEAVY_FIRST = ["standin/dofs", "dofs/hex", "dofs/tet", "dofs/wedge"]
